@@ -17,6 +17,9 @@ def dispatch(prop, tier):
     if prop == 'C04':
         from harness.checks import layout
         return layout.run_c04(tier)
+    if prop == 'C15':
+        from harness.checks import order
+        return order.run_c15(tier)
     raise core.Infra('no check registered for %s' % prop)
 
 
